@@ -105,6 +105,15 @@ def run_case(case, rec):
         (pkg / 'logo.png').write_bytes(b'\x89PNG\r\n\x1a\n\x00\x00\x00\rIHDR\xff\xfe\x80\x81 not utf-8 \xe9\xe8')
         (pkg / 'LISEZMOI.txt').write_bytes('r\xe9sum\xe9 en latin-1'.encode('latin-1'))
         routes['package'] = pkg
+        # a package directory whose resource file is a symbolic link (annexed / stowed data), and a link to a plain file
+        lpkg = inputs / 'lpkg' / 'linkedpackage'
+        lpkg.mkdir(parents=True)
+        (lpkg / 'wordnet.xml').symlink_to(f_xml)
+        (lpkg / 'LICENSE').write_text('license')
+        routes['package(symlinked file)'] = lpkg
+        f_link = inputs / 'link-to-res.xml'
+        f_link.symlink_to(f_gz)
+        routes['symlink-to-gz'] = f_link
         for name, mode in (('tar', 'w'), ('tar.gz', 'w:gz'), ('tar.xz', 'w:xz')):
             t = inputs / f'file.{name}'
             make_tar(f_xml, t, mode)
